@@ -23,6 +23,17 @@ Theorem C01_frames_never_underflow : forall c, reach G_frame c -> ~ underflow G_
 Proof. exact (no_underflow G_frame C_frame cert_frame). Qed.
 Print Assumptions C01_frames_never_underflow.
 
+(* current-object discipline, with the same machine: seen as stacks of height 0 / 1, the pointers currentFun and currentTemplate
+   are never dereferenced by a grammar action while null — statements only reach get_block() inside a function whose
+   decl_func_begin has run, locations / branchpoints / edges / init only inside a process whose proc_begin has run —
+   whatever the tokens and however the parser recovers *)
+Theorem C01_current_function_never_null_when_used : forall c, reach G_fun c -> ~ underflow G_fun c.
+Proof. exact (no_underflow G_fun C_fun cert_fun). Qed.
+Print Assumptions C01_current_function_never_null_when_used.
+Theorem C01_current_template_never_null_when_used : forall c, reach G_templ c -> ~ underflow G_templ c.
+Proof. exact (no_underflow G_templ C_templ cert_templ). Qed.
+Print Assumptions C01_current_template_never_null_when_used.
+
 (* the stack height never drops below the contribution of what is on the parser stack: in particular a complete parse of a
    block (the stack holds the start symbol again) leaves at least what it found *)
 Theorem C01_height_invariant : forall c, reach G_frag c -> (pot C_frag (fst c) <= snd c)%Z.
